@@ -23,6 +23,7 @@
 use super::unifiable::{*, Unifiable::*};
 use super::goal::*;
 use super::logic_var::*;
+use super::time_out::*;
 use super::parse_terms::*;
 use super::parse_goals::*;
 
@@ -102,7 +103,9 @@ pub fn make_query(terms: Vec<Unifiable>) -> Goal {
     // the substitution set. The substitution set is as large as
     // the highest variable ID (LOGIC_VAR_ID). Therefore LOGIC_VAR_ID
     // should be set to 0 for every query.
-    clear_id();  // Reset LOGIC_VAR_ID.
+    // A previous query may have timed out. Its stop flag must not
+    // leak into this query: count_rules() returns 0 while it is set.
+    start_query();  // Reset LOGIC_VAR_ID and SUIRON_STOP_QUERY.
 
     let mut new_terms: Vec<Unifiable> = vec![];
     let mut vars = VarMap::new();
